@@ -254,6 +254,14 @@ func vf12Seeds() [][]byte {
 	// a Field with a Connection(Buffer) element and an access field (hand-encoded)
 	body := []byte{'R', 'E', 'G', '0', 0x01, 0x02, 0x11, 0x05, 0x0a, 0x02, 0xaa, 0xbb, 'F', 'L', 'D', '0', 0x08, 0x01, 0x03, 0x00, 'F', 'L', 'D', '1', 0x04}
 	seeds = append(seeds, append([]byte{0x5b, 0x81, byte(len(body) + 1)}, body...))
+	// Fields whose Connection(Buffer) is the very last element of the table (nothing behind the buffer package),
+	// with byte-, word- and dword-sized buffer size constants
+	for _, size := range [][]byte{{0x0a, 0x02}, {0x0b, 0x02, 0x00}, {0x0c, 0x02, 0x00, 0x00, 0x00}} {
+		buf := append(append([]byte{}, size...), 0xaa, 0xbb)
+		conn := append([]byte{0x02, 0x11, byte(len(buf) + 1)}, buf...)
+		b2 := append([]byte{'R', 'E', 'G', '0', 0x01, 'F', 'L', 'D', '0', 0x08}, conn...)
+		seeds = append(seeds, append([]byte{0x5b, 0x81, byte(len(b2) + 1)}, b2...))
+	}
 	return seeds
 }
 
@@ -377,6 +385,30 @@ func TestVerifC12(t *testing.T) {
 			}
 		}
 	}
+	// (2b) Field Connection(Buffer) elements: every declared size x initialiser length x what follows the buffer package
+	if run.Shard == 0 {
+		for _, declared := range []uint32{0, 1, 2, 3, 4, 5, 7, 8, 0x3f, 0x40, 0xff, 0x100, 0xffff, 0x10000, 0xffffffff} {
+			for initLen := 0; initLen <= 4; initLen++ {
+				for _, tail := range [][]byte{nil, {'F', 'L', 'D', '1', 0x04}, {0x00, 0x08}} {
+					for _, pre := range [][]byte{nil, first} {
+						var size []byte
+						switch {
+						case declared < 0x100:
+							size = []byte{0x0a, byte(declared)}
+						case declared < 0x10000:
+							size = []byte{0x0b, byte(declared), byte(declared >> 8)}
+						default:
+							size = []byte{0x0c, byte(declared), byte(declared >> 8), byte(declared >> 16), byte(declared >> 24)}
+						}
+						buf := append(append([]byte{}, size...), make([]byte, initLen)...)
+						conn := append([]byte{0x02, 0x11, byte(len(buf) + 1)}, buf...)
+						b2 := append(append([]byte{'R', 'E', 'G', '0', 0x01, 'F', 'L', 'D', '0', 0x08}, conn...), tail...)
+						c.parse(pre, append([]byte{0x5b, 0x81, byte(len(b2) + 1)}, b2...))
+					}
+				}
+			}
+		}
+	}
 	// (4) every generated program the reference namespace rejects as ill-formed, with widened name forms
 	mk := func(kind, name string) *vfN {
 		switch kind {
@@ -425,6 +457,6 @@ func TestVerifC12(t *testing.T) {
 	if run.Thorough() {
 		maxLen = 5
 	}
-	run.Finish(complete, fmt.Sprintf("(1) every byte string of length <=3 over a %d-byte alphabet (every valid opcode byte, ext prefix, name/prefix/length bytes) and of length <=%d over a 28-byte alphabet; (2) %d well-formed seeds: every truncation, single-bit flip, byte substitution from the alphabet, length-style corruption (one and two bytes) at every offset, one-byte insertion/deletion, every splice a[:i]+b[j:] (a third of the cut pairs in quick); (3) the same after a first valid table; (4) generated ill-formed programs: 9 constructs x 22 name forms (self-referential, dangling, over-long prefixes) x 8 containers, alone and followed by a second construct", len(full), maxLen, len(seeds)),
+	run.Finish(complete, fmt.Sprintf("(1) every byte string of length <=3 over a %d-byte alphabet (every valid opcode byte, ext prefix, name/prefix/length bytes) and of length <=%d over a 28-byte alphabet; (2) %d well-formed seeds: every truncation, single-bit flip, byte substitution from the alphabet, length-style corruption (one and two bytes) at every offset, one-byte insertion/deletion, every splice a[:i]+b[j:] (a third of the cut pairs in quick); (2b) Field Connection(Buffer) elements: 15 declared sizes x initialiser length 0..4 x {last element, followed by a named / reserved field}; (3) the same after a first valid table; (4) generated ill-formed programs: 9 constructs x 22 name forms (self-referential, dangling, over-long prefixes) x 8 containers, alone and followed by a second construct", len(full), maxLen, len(seeds)),
 		"each input is parsed by the instrumented real parser against a guard page; oracles: no panic/fault, step and depth budgets, error kind, every byte slice inside the table, tree invariants, printable on success; distinct = outcome class")
 }
